@@ -128,9 +128,9 @@ Qed.
 Lemma s_conv_in_range : forall k0 k v v', in_range k0 v = true -> s_conv k0 k v = Some v' -> v' = v /\ in_range k v = true.
 Proof.
   intros k0 k v v' H0 Hc. unfold s_conv in Hc. destruct (kind_eqb k0 k) eqn:E.
-  - apply kind_eqb_eq in E. subst. inversion Hc. auto.
+  - apply kind_eqb_eq in E. subst. inversion Hc; subst. auto.
   - destruct (is_float k0 || is_float k); [discriminate|]. destruct (in_range k v) eqn:E2; [|discriminate].
-    inversion Hc. auto.
+    inversion Hc; subst. auto.
 Qed.
 
 Lemma kernelArg_scalar : forall k v, in_range k v = true ->
